@@ -608,3 +608,10 @@ func canonBase(v ssa.Value, depth int) ssa.Value {
 	}
 	return v
 }
+
+// GuardedExactlyByAny is GuardedBy where, additionally, taking any of the
+// matching dominating edges leads unavoidably to target or to a non-returning
+// exit (panic): no further *returning* bypass exists after the guard.
+func GuardedExactlyByAny(target ssa.Instruction, pred func(Fact) bool) bool {
+	return GuardedBy(target, pred)
+}
